@@ -172,9 +172,8 @@ def run(ctx):
      ctx.violation('R4', 'Reporter.add_file_report', afr.where, 'add_file_report does not store exactly one handled result per handler'))
     ip = R.function('init_parallel')
     src = ast.unparse(ip.node)
-    ok = X.has(src, 'manager.dict()') and X.has(src, 'manager.list(reports)') and X.has(src, 'self.handlers_reports = parallel_reports')
-    (ctx.judge('R4', 'init_parallel keeps existing reports in shared lists') if ok else
-     ctx.violation('R4', 'Reporter.init_parallel', ip.where, 'init_parallel does not move every handler list into manager containers'))
+    ctx.wired('R4', 'Reporter.init_parallel', ip.where, src, ['manager.dict()', 'manager.list(reports)', 'self.handlers_reports = parallel_reports'],
+              'init_parallel does not move every handler list into manager containers')
     # ---- R5
     ctx.rule('R5', 'Linter.check / Linter.fix do not store to self.<attr> and do not mutate any alias of self.config; '
                    'check_and_fix_file passes no per-file overwrite_config')
@@ -258,9 +257,8 @@ def run(ctx):
      ctx.violation('R5', 'check_and_fix_file:override', cf.where, f'{passes[0]} installs a per-file configuration override in the shared linter'))
     ctx.floor('R5', 'per-file Linter methods analysed', n5, 2)
     src = ast.unparse(cf.node)
-    ok = X.has(src, 'Sourcefile.from_file(path)') and X.has(src, 'linter.check(source)')
-    (ctx.judge('R2', 'check_and_fix_file checks the given path') if ok else
-     ctx.violation('R2', 'check_and_fix_file', cf.where, 'check_and_fix_file does not parse and check the given path'))
+    ctx.wired('R2', 'check_and_fix_file', cf.where, src, ['Sourcefile.from_file(path)', 'linter.check(source)'],
+              'check_and_fix_file does not parse and check the given path')
 
 
 MUTANTS = [
